@@ -25,7 +25,7 @@ func VInv(h *Heap[int]) []int {
 	v.Assert(h.list != nil, "inv-list-nil")
 	cells := h.list.Values()
 	for i := 1; i < len(cells); i++ {
-		v.Assert(!vl.Less(cells[i], cells[(i-1)/2]), "C06:heap-order")
+		v.Assert(!vl.Less(cells[i], cells[(i-1)/2]), "C06:inv-heap-order")
 	}
 	return cells
 }
@@ -66,7 +66,7 @@ type VHeapLike struct {
 // VHeapStep: one operation on an arbitrary heap (C06): heap order kept, the returned element is one that no
 // contained element precedes, and the multiset of contents changes by exactly the pushed / popped elements
 // (probe-count obligation: for every value x, #post(x) = #pre(x) +/- [x pushed/popped]).
-func VHeapStep(q VHeapLike, pre []int) {
+func VHeapStep(q VHeapLike, pre []int) []int {
 	op := v.CfgOr("op", -1)
 	if op < 0 {
 		op = v.Split(v.IntIn("op", 0, VOpCount-1), 0, VOpCount-1)
@@ -139,6 +139,21 @@ func VHeapStep(q VHeapLike, pre []int) {
 	v.Assert(sz == len(post), "C06,C15:size")
 	v.Assert(sz >= 0, "C15:size-nonneg")
 	v.Assert(q.Empty() == (sz == 0), "C15:empty")
+	return post
+}
+
+// VHeapHistory: D operations in a row from a freshly constructed heap.
+func VHeapHistory(q VHeapLike) {
+	var cells []int
+	D := v.CfgOr("D", 3)
+	for i := 0; i < D; i++ {
+		cells = VHeapStep(q, cells)
+	}
+}
+
+func VHHistory() {
+	h := NewWith[int](vl.Cmp)
+	VHeapHistory(VHeapLike{Push: h.Push, Pop: h.Pop, Peek: h.Peek, Clear: h.Clear, Values: h.Values, Size: h.Size, Empty: h.Empty, String: h.String, Heap: h, Name: "BinaryHeap"})
 }
 
 func VHHeapStep() {
